@@ -6,7 +6,13 @@ PROP = "C10"
 MODULE = "GmqttVerif.Properties.C10"
 THEOREMS = ["GmqttVerif.Queue.len_le_max", "GmqttVerif.Queue.conservation", "GmqttVerif.Queue.exactly_one_place",
             "GmqttVerif.Queue.read_fifo", "GmqttVerif.Queue.read_ids_in_order", "GmqttVerif.Queue.read_never_expired_or_oversize",
-            "GmqttVerif.Queue.replay_after_init", "GmqttVerif.Queue.drop_ladder", "GmqttVerif.Queue.counters_exact"]
+            "GmqttVerif.Queue.replay_after_init", "GmqttVerif.Queue.drop_ladder", "GmqttVerif.Queue.counters_exact"] + \
+           ["GmqttVerif.C10Redis." + t for t in
+            # redis backend refines the memory-queue model (Properties/C10Redis.lean): every operation, loops included, whole histories
+            ["redis_refines_mem_init", "redis_refines_mem_add", "redis_refines_mem_remove", "redis_refines_mem_replace",
+             "redis_refines_mem_close", "redis_refines_mem_readInflight", "redis_refines_mem_read", "redis_refines_mem_add_full",
+             "redis_refines_mem", "redis_refines_mem_run", "redis_refines_mem_from_new", "statement_without_fresh_false", "sim_new"]]
+EXTRA_MODULES = ["GmqttVerif.Properties.C10Redis"]
 BIG = 4294967295
 
 def gen(rng, age=True):
